@@ -23,8 +23,8 @@ pub enum Loss {
     /// tree text = source, or a proper prefix of it (token limit)
     None,
     /// whole tokens are missing and EVERY missing token is one that ty.rs `parse` popped because it cannot start a
-    /// type (neither a Name nor `[`), directly after `[` of a LIST_TYPE or after the `:` of a field / input value /
-    /// variable definition (or at the very start of the type entry point): the recorded finding, exactly
+    /// type (neither a Name nor `[`), directly after `[` of a LIST_TYPE (lexer-error fragments and ignored tokens may stand in
+    /// between), or at the very start of the type entry point: the recorded finding, exactly
     TypePositionDropOnly,
     /// anything else: some other token is missing, text was added, reordered …
     Other,
@@ -60,7 +60,8 @@ pub fn nesting_depth(node: &SyntaxNode) -> usize {
             // the counter is bumped right after `[`, before the item type is looked at
             K::LIST_TYPE => 1,
             // one level per attempted element value (anything but the brackets and ignored tokens)
-            K::LIST_VALUE => if node.children_with_tokens().any(|c| !matches!(c.kind(), K::L_BRACK | K::R_BRACK | K::WHITESPACE | K::COMMENT | K::COMMA)) { 1 } else { 0 },
+            // (a lexer-error fragment queued in front of `]` is an ERROR token too, but no element was attempted for it)
+            K::LIST_VALUE => if node.children_with_tokens().any(|c| !matches!(c.kind(), K::L_BRACK | K::R_BRACK | K::WHITESPACE | K::COMMENT | K::COMMA) && !is_lexer_error_fragment(&c)) { 1 } else { 0 },
             // the value after `name:`
             K::OBJECT_FIELD => if node.children_with_tokens().any(|c| c.kind() == K::COLON) { 1 } else { 0 },
             _ => 0,
@@ -70,10 +71,28 @@ pub fn nesting_depth(node: &SyntaxNode) -> usize {
     go(node)
 }
 
+/// an ERROR token that holds what the *lexer* refused (its text does not lex as a token), as opposed to a token the parser popped
+fn is_lexer_error_fragment(c: &SyntaxElement) -> bool {
+    match c {
+        SyntaxElement::Token(t) if t.kind() == apollo_parser::SyntaxKind::ERROR => matches!(apollo_parser::Lexer::new(t.text()).next(), Some(Err(_))),
+        _ => false,
+    }
+}
+
+/// nesting depth of the tree of an entry point: the standalone selection-set entry keeps its temporary root (a second
+/// SELECTION_SET around the real one) when lexer errors precede the first node; that wrapper is not a level
+pub fn entry_depth(entry: &str, node: &SyntaxNode) -> usize {
+    use apollo_parser::SyntaxKind as K;
+    let d = nesting_depth(node);
+    if entry == "sel" && node.kind() == K::SELECTION_SET && node.children().any(|c| c.kind() == K::SELECTION_SET) { d - 1 } else { d }
+}
+
 /// Aligns the tree text with the source token by token and classifies what is missing.
-pub fn classify_loss(entry: &str, src: &str, node: &SyntaxNode) -> Loss {
+pub fn classify_loss(entry: &str, src: &str, node: &SyntaxNode, limited: bool) -> Loss {
     let text = node.text().to_string();
-    if src.starts_with(&text) { return Loss::None; }
+    // a proper prefix is what a token limit leaves; without one it means the LAST tokens are missing (`type T { f: [ }` loses its `}`)
+    // (the standalone entry points stop after their construct: a proper prefix is all they promise)
+    if text == src || ((limited || entry != "doc") && src.starts_with(&text)) { return Loss::None; }
     // items of the source (tokens and lexer-error fragments tile it)
     let mut items: Vec<(usize, String, bool, bool)> = vec![]; // start, text, is_trivia, can_start_type
     for r in apollo_parser::Lexer::new(src) {
@@ -81,7 +100,9 @@ pub fn classify_loss(entry: &str, src: &str, node: &SyntaxNode) -> Loss {
             Ok(t) => { let k = t.kind(); use apollo_parser::TokenKind as T;
                 if k == T::Eof { continue; }
                 items.push((t.index(), t.data().to_string(), matches!(k, T::Whitespace | T::Comment | T::Comma), k == T::Name || k == T::LBracket)); }
-            Err(e) => items.push((e.index(), e.data().to_string(), false, false)),
+            // what the lexer refused is queued like an ignored token and flushed into the current node: it never is the dropped token,
+            // and it does not separate `[` / `:` from the token that ty.rs pops (`[é]` loses its `]`)
+            Err(e) => items.push((e.index(), e.data().to_string(), true, false)),
         }
     }
     // significant tokens of the tree with their parent kinds, by tree offset
@@ -96,27 +117,46 @@ pub fn classify_loss(entry: &str, src: &str, node: &SyntaxNode) -> Loss {
     // one; only "the first" fits the defect, so both alignments are tried where the text allows both)
     fn drop_ok(entry: &str, prev: &Option<(String, String)>) -> bool {
         match prev {
-            None => entry == "type",
-            Some((t, parent)) => (t == "[" && parent == "LIST_TYPE") || (t == ":" && matches!(parent.as_str(), "FIELD_DEFINITION" | "INPUT_VALUE_DEFINITION" | "VARIABLE_DEFINITION")),
+            None => entry == "type" || entry == "ty",
+            // (audit G1: only after `[` — field_definition / input_value_definition / variable_definition look at the token after `:`
+            // themselves and never hand a token that cannot start a type to ty.rs; a drop after `:` would be a NEW defect)
+            Some((t, parent)) => t == "[" && parent == "LIST_TYPE",
         }
     }
-    struct Al<'a> { entry: &'a str, items: &'a [(usize, String, bool, bool)], text: &'a str, toks: &'a std::collections::HashMap<usize, (String, String)>, steps: usize }
+    struct Al<'a> { entry: &'a str, items: &'a [(usize, String, bool, bool)], text: &'a str, toks: &'a std::collections::HashMap<usize, (String, String)>, steps: usize, limited: bool }
     impl Al<'_> {
-        fn go(&mut self, i: usize, j: usize, prev: Option<(String, String)>, dropped: bool) -> bool {
-            self.steps += 1;
-            if self.steps > 200_000 { return false; }
-            if j >= self.text.len() || i >= self.items.len() { return dropped && j == self.text.len(); }
-            let (_, data, trivia, can_start) = &self.items[i];
-            if self.text[j..].starts_with(data.as_str()) {
-                let p2 = if *trivia { prev.clone() } else { Some(self.toks.get(&j).cloned().unwrap_or((data.clone(), String::new()))) };
-                if self.go(i + 1, j + data.len(), p2, dropped) { return true; }
+        // iterative along the forced path; recursion only where a token can both be matched and be the dropped one (`[[]]` → `[[]`)
+        fn go(&mut self, mut i: usize, mut j: usize, mut prev: Option<(String, String)>, mut dropped: bool, depth: usize) -> bool {
+            if depth > 1000 { return false; }
+            loop {
+                self.steps += 1;
+                if self.steps > 400_000 { return false; }
+                if i >= self.items.len() { return dropped && j == self.text.len(); }
+                let (_, data, trivia, can_start) = &self.items[i];
+                let can_drop = !*trivia && !*can_start && drop_ok(self.entry, &prev);
+                if j >= self.text.len() {
+                    if j != self.text.len() { return false; }
+                    if self.limited { return dropped; }
+                    // no token limit: the tree text is used up, so every remaining source item must itself be such a drop
+                    if can_drop { i += 1; dropped = true; continue; }
+                    return false;
+                }
+                let matches = self.text[j..].starts_with(data.as_str());
+                if matches {
+                    let p2 = if *trivia { prev.clone() } else { Some(self.toks.get(&j).cloned().unwrap_or((data.clone(), String::new()))) };
+                    if can_drop {
+                        if self.go(i + 1, j + data.len(), p2, dropped, depth + 1) { return true; }
+                        i += 1; dropped = true; continue;
+                    }
+                    j += data.len(); i += 1; prev = p2; continue;
+                }
+                if can_drop { i += 1; dropped = true; continue; }
+                return false;
             }
-            if !*trivia && !*can_start && drop_ok(self.entry, &prev) { return self.go(i + 1, j, prev, true); }
-            false
         }
     }
-    let mut al = Al { entry, items: &items, text: &text, toks: &tree_toks, steps: 0 };
-    if al.go(0, 0, None, false) { Loss::TypePositionDropOnly } else { Loss::Other }
+    let mut al = Al { entry, items: &items, text: &text, toks: &tree_toks, steps: 0, limited: limited || entry != "doc" };
+    if al.go(0, 0, None, false, 0) { Loss::TypePositionDropOnly } else { Loss::Other }
 }
 
 pub fn run_parser(entry: &str, tl: Option<usize>, rl: usize, src: &str) -> Result<Parsed, String> {
@@ -133,7 +173,7 @@ pub fn run_parser(entry: &str, tl: Option<usize>, rl: usize, src: &str) -> Resul
         show(&node, src, &mut sexpr, &mut bad);
         let errors = errs.iter().map(|e| if e.is_limit() { ('L', e.index(), 0) } else if e.is_eof() { ('F', e.index(), 0) } else { ('E', e.index(), e.data().len()) }).collect();
         let msgs = errs.iter().map(|e| (e.index(), e.message().to_string())).collect();
-        Parsed { sexpr, text: node.text().to_string(), root_kind: format!("{:?}", node.kind()), errors, rec_high: rh, tok_high: th, boundaries_ok: !bad, msgs, depth: nesting_depth(&node), loss: classify_loss(entry, src, &node) }
+        Parsed { sexpr, text: node.text().to_string(), root_kind: format!("{:?}", node.kind()), errors, rec_high: rh, tok_high: th, boundaries_ok: !bad, msgs, depth: entry_depth(entry, &node), loss: classify_loss(entry, src, &node, tl.is_some()) }
     })
 }
 
